@@ -115,6 +115,19 @@ def F13():
     assert "A: Literal[0]" in stub and "B: Literal[5]" in stub, stub
 
 
+def F14():
+    data = bytes(range(1, 40))
+    for d in ("struct t { uint8 a; struct { uint8 x; } n; uint32 b; };", "struct t { uint8 a:4; uint32 d; };"):
+        out = []
+        for comp in (True, False):
+            cs = cstruct()
+            cs.load(d, align=True, compiled=comp)
+            assert cs.t.__compiled__ == comp
+            o = cs.t(data)
+            out.append((o.dumps(), o._sizes))
+        assert out[0] == out[1], (d, out)  # compiled reader reads the scalar behind the gap from the wrong offset
+
+
 ALL = {k: v for k, v in globals().items() if k.startswith("F") and callable(v)}
 
 if __name__ == "__main__":
